@@ -133,6 +133,14 @@ def run(rep, tier, root=None):
                           "is 0 or a few per cent off there, covariance matrices of finely sampled points are indefinite" % text, f.where(node))
         if not nc:
             rep.ok("V0.precision", f.fq + ": evaluated in the precision of its argument (no narrowing cast)")
+    # the covariance form is the one that is differenced (D = 2 (C(0) - C(r)), B B^T = C_xx - A C_zx): its separations must be
+    # promoted to double precision whatever they are passed as, or a float32 array of separations gives the float32 law
+    from ..common import promoted_to_double
+    okp, nodep, textp = promoted_to_double(fC, fC.params[0])
+    rep.check(okp, "V0.precision", fC.fq + ": the separations are promoted to double precision before use",
+              "the first use of `%s` is `%s`: float32 (or float16) separations are evaluated in their own precision - the covariance then "
+              "differs by 1e-7 relative from the double-precision law, 2 (C(0) - C(r)) is several per cent to 100%% off for small r and "
+              "not monotone, and 1e-40 is a float32 denormal (C(0) = nan for large L0)" % (fC.params[0], textp), fC.where(nodep) if nodep is not None else fC.where())
     for f, v in ((fC, C), (fD, D), (fK, Dk), (fKL, Dkl), (fKK, Dkk)):
         rep.sample({"function": f.fq, "normal_form": nf(v)})
         if has_unknown(v):
